@@ -537,4 +537,60 @@ def classifyAnyDepth (j : Json) : MsgKind :=
   | false, true => .notification
   | false, false => .invalid
 
+/-! ## the registries behind tools/list, prompts/list, resources/list, resources/templates/list
+
+manager_tools.go / manager_prompt.go / manager_resource.go keep, per kind, a map from the key (tool name, prompt name,
+resource URI, template name) to the registered descriptor + handler, and an order slice of the keys:
+
+* `registerTool` / `registerPrompt` / `registerResource(s)`: a new key is appended to the order slice, an existing key keeps
+  its position; the map entry is REPLACED either way (descriptor and handler).
+* `registerTemplate`: an existing name is refused (`template %s already exists`; the public `RegisterResourceTemplate` drops
+  the error): the FIRST registration stays.
+* `unregisterTools` (tools only): the keys are deleted from the map and from the order slice.
+* listing: `getResources` walks the order slice; `getTools` / `getPrompts` / `getTemplates` range over the map (Go map order:
+  no order is defined - the harness compares these listings as sets, sorted by key).
+
+The model is the ordered association list (`α` = descriptor + handler). -/
+namespace Registry
+
+abbrev Reg (α : Type) := List (Text × α)
+
+def find {α} : Reg α → Text → Option α
+  | [], _ => none
+  | (k, v) :: rest, key => if k = key then some v else find rest key
+
+def names {α} (r : Reg α) : List Text := r.map (·.1)
+
+/-- replace in place, or append -/
+def register {α} : Reg α → Text → α → Reg α
+  | [], n, d => [(n, d)]
+  | (k, v) :: rest, n, d => if k = n then (k, d) :: rest else (k, v) :: register rest n d
+
+/-- `registerTemplate`: an existing name is refused -/
+def registerKeepFirst {α} (r : Reg α) (n : Text) (d : α) : Reg α :=
+  if (find r n).isSome then r else r ++ [(n, d)]
+
+def unregister {α} (r : Reg α) (ns : List Text) : Reg α := r.filter (fun p => !ns.contains p.1)
+
+inductive Step (α : Type) where
+  | reg (name : Text) (d : α)
+  | unreg (names : List Text)
+
+def step {α} (keepFirst : Bool) (r : Reg α) : Step α → Reg α
+  | .reg n d => if keepFirst then registerKeepFirst r n d else register r n d
+  | .unreg ns => unregister r ns
+
+/-- the registry after a history of registrations / unregistrations (from the empty registry) -/
+def run {α} (keepFirst : Bool) (h : List (Step α)) : Reg α := h.foldl (step keepFirst) []
+
+/-! the specification, written without any list of entries: what is *currently registered* under a key after a history -/
+def specStep {α} (keepFirst : Bool) (f : Text → Option α) : Step α → Text → Option α
+  | .reg n d => fun k => if k = n then (if keepFirst && (f n).isSome then f n else some d) else f k
+  | .unreg ns => fun k => if ns.contains k then none else f k
+
+def current {α} (keepFirst : Bool) (h : List (Step α)) : Text → Option α :=
+  h.foldl (specStep keepFirst) (fun _ => none)
+
+end Registry
+
 end Mcp.Content
